@@ -19,7 +19,10 @@ RULE = ("Hypothesis draws 1-4 (controlled) or 2-8 (stress) independent pipelines
         "for every model) in a fresh worker thread that never entered generate_code. mode 'controlled': the harness owns the "
         "schedule - worker threads run under sys.settrace and park at every call/return event of a json_to_models function; the "
         "controller resumes the thread named by the next schedule element (a list of small ints, then round-robin). mode 'stress': "
-        "threads released by a barrier under sys.setswitchinterval(1e-6). Oracle: every pipeline's text equals its text when run "
+        "threads released by a barrier under sys.setswitchinterval(1e-6); phase 'first-use': the same, but in a fresh child interpreter "
+        "whose very first use of the library are these concurrent pipelines (lazy initialisation raced). Pipelines differ in "
+        "decorator kwargs, registries (own / process-wide default / full), merge policies; a quarter are whole command lines "
+        "(Cli().parse_args(); run(), optionally -o FILE), in some cases all with --datetime. Oracle: every pipeline's text equals its text when run "
         "alone in the main thread; an exception in a thread that the solo run does not raise is a violation. Non-trivial (measured "
         "by the scheduler, reported not enforced): >= 2 threads were inside generate_code at the same step and some pipeline had a "
         "non-empty reference context; for 'single': the pipeline has a non-empty context or >= 2 models. "
